@@ -37,7 +37,30 @@ def tree(ctx, origin, depth=0, resolve_places=True):
         return ("place", ctx.body.key, root, path)
     if k == "call":
         t = ctx.body.term(root[1])
-        tag = callee_tag(t.get("callee"))
+        ce = t.get("callee")
+        tag = callee_tag(ce)
+        if INLINE[0] and ce is not None and ce.get("local") and classify(ce) == "unclassified" and \
+                depth < 10 and helper_depth(ctx) < 3:
+            # a local helper the tables do not know: look at what its implementations return
+            from core import candidates, ctx_chain_keys, Ctx as _Ctx
+            cands = [cb for cb in candidates(ctx.body.facts, ce) if cb.key not in ctx_chain_keys(ctx)]
+            if cands:
+                params = {}
+                for k2, a in enumerate(t["args"]):
+                    s = set()
+                    for o in ctx.org.operand(a):
+                        s |= base_places(ctx, o)
+                    params[k2 + 1] = s
+                alts = set()
+                for cb in cands:
+                    hctx = _Ctx(cb, parent=ctx, upvars={}, params=params, site_bb=root[1])
+                    for o in hctx.org.local(0):
+                        for o2 in hctx.org.extend(o[0], o[1] + path):
+                            alts.add(tree(hctx, o2, depth + 1))
+                if len(alts) == 1:
+                    return next(iter(alts))
+                if alts:
+                    return ("phi", tuple(sorted(alts, key=repr)))
         args = tuple(trees(ctx, ctx.org.operand(a), depth + 1) for a in t["args"])
         return ("call", tag, args, path, root[1])
     if k == "expr":
@@ -67,6 +90,31 @@ def tree(ctx, origin, depth=0, resolve_places=True):
     if k == "counter":
         return ("counter", root[1])
     return ("opaque", repr(root))
+
+
+INLINE = [False]
+
+
+class inlining:
+    """within this context, tree() looks into local helper functions the tables do not know
+    (every implementation of a trait method, the provided default included)"""
+
+    def __enter__(self):
+        self.old = INLINE[0]
+        INLINE[0] = True
+
+    def __exit__(self, *a):
+        INLINE[0] = self.old
+
+
+def helper_depth(ctx):
+    n = 0
+    c = ctx
+    while c.parent is not None:
+        if c.body.kind != "Closure":
+            n += 1
+        c = c.parent
+    return n
 
 
 def trees(ctx, origins, depth=0):
